@@ -19,6 +19,8 @@ name[level-1] with level-1, the same search_below_cuts and at_apex = false;
 node's name as source of synthesis; NxDomain only when both are missing;
 (e) lookup / lookup_addrs / lookup_all map Referral, NxDomain and WrongZone one-to-one, and lookup prefers an RRset of the
 requested type over a CNAME over NoRecords, passing the source of synthesis through.
+(shared) the subdomain relation Name::eq_or_subdomain_of compares whole labels right to left through Label::eq, never raw
+wire octets (a length octet inside a label must not be mistaken for a label boundary).
 Not decided: agreement with an RFC 4592 model on arbitrary zones (empty non-terminals, closest encloser): value-level.
 The decided clauses are necessary, far from sufficient.
 """
@@ -42,6 +44,9 @@ def returns(fn):
 
 
 def check(R, F):
+    from rules.name_rules import check_label_suffix
+    check_label_suffix(R, F)
+
     lb = F.fn(Z + 'HashMapTreeZone::lookup_base')
     rs = returns(lb)
     wz = [r for r in rs if r[1] == 'WrongZone']
